@@ -40,9 +40,9 @@ decasteljau(const std::vector<LieGroup>& trajectory,
   MANIF_CHECK(k_interp > 0,
     "k_interp must be greater than zero!");
 
-  // Number of connected, non-overlapping segments
+  // Number of connected segments, overlapping by one point
   const unsigned int n_segments = static_cast<unsigned int>(
-      std::floor(double(trajectory.size()-degree)/double((degree-1)+1))
+      std::floor(double(trajectory.size()-degree)/double(degree-1))+1
   );
 
   std::vector<std::vector<const LieGroup*>> segments_control_points;
